@@ -162,7 +162,7 @@ def _dot(a, b):
 
 
 # --------------------------------------------------------------------------- B-plane
-def bplane_case():
+def bplane_case(tier="quick"):
     ins = [(k, "real") for k in RV] + [("mu", "pos")]
 
     def evec(env, v):
@@ -222,7 +222,18 @@ def bplane_case():
         else:
             r["S"] = out["S"]
         return r
-    return Case("bplane", ins, run, ref, pre=pre, timeout=60, tol=1e-7, abs_tol=1e-7,
+    def hints(v):
+        # closed forms offered for the code's norms (each is proved by the solver before it is used)
+        from symx.case import Env
+        env = Env(True)
+        e, rn, v2 = evec(env, v)
+        en = env.sqrt(_dot(e, e))
+        hv = _cross([v["rx"], v["ry"], v["rz"]], [v["vx"], v["vy"], v["vz"]])
+        hn = env.sqrt(_dot(hv, hv))
+        return [rn, en, hn]
+    # the hints cost several minutes of proof in the builder: thorough tier only (quick leaves the S component undecided)
+    return Case("bplane", ins, run, ref, pre=pre, hints=hints if tier != "quick" else None, timeout=60 if tier == "quick" else 600,
+                tol=1e-7, abs_tol=1e-7,
                 desc="B-plane of a hyperbolic state: S is the unit vector along the incoming asymptote (e^/e + (h^ x e^) sqrt(1-1/e^2)), "
                      "(S, T, R) orthonormal, B perpendicular to S and to the angular momentum")
 
@@ -284,7 +295,7 @@ def frozen_case():
 
 
 def all_cases(tier):
-    return [ltan_case("mean"), ltan_case("true"), walker_case("WalkerStar"), walker_case("WalkerDelta"), beta_case(), bplane_case(),
+    return [ltan_case("mean"), ltan_case("true"), walker_case("WalkerStar"), walker_case("WalkerDelta"), beta_case(), bplane_case(tier),
             sso_case(), frozen_case()] + c19l.cases(tier)
 
 
